@@ -151,6 +151,28 @@ def _calibration(ctx, N, cls):
     I2, s2 = ctx.interp(), State()
     ref = ctx.call_func(I2, s2, "ref.selection_ref.fps_norms", X, 0)
     ctx.compare("NF-DIST", "norms_ defined as in plain FPS (sample direction)", N, heap.get("norms_"), ref, site)
+    # the first pick is stored and is the candidate pushed through the first table update
+    from ..harness import index as _index
+    from ..terms import const as _const
+
+    for vname, init_v in (("int", _index("i0", "N")), ("random", vconst("random"))):
+        pushed = []
+
+        def rec(interp, clo, args, kw, st_, node):
+            pushed.append(args[2] if len(args) > 2 else kw.get("last_selected"))
+            return vconst(None)
+
+        Ii = ctx.interp(stubs={"VoronoiFPS._update_post_selection": rec}, assume=protocols.assume_default)
+        si = State()
+        oi = ctx.construct(Ii, si, cls, n_to_select=integer("S"), full_fraction=scalar("ff", 0, 1, True, False))
+        hi = si.heap[oi.obj.id]
+        hi["_axis"], hi["initialize"] = vconst(0), init_v
+        ctx.call_method(Ii, si, oi, "_init_greedy_search", X, y, integer("S"))
+        sel = hi.get("selected_idx_")
+        ok = len(pushed) == 1 and sel is not None and pushed[0] is not None and N.nf(pushed[0].term) == N.nf(T("getitem", sel.term, _const(0)))
+        if ok and vname == "int":
+            ok = N.nf(pushed[0].term) == N.nf(init_v.term)
+        ctx.ob("R-INDEXSPACE", f"the initial pick is stored in slot 0 and is the point the tables are initialised from [{vname}]", ok, f"pushed {[repr(p_.term)[:80] if p_ is not None else None for p_ in pushed]} ; selected_idx_ = {None if sel is None else repr(sel.term)[:120]}", site, vname)
     # refit: every table is rebuilt from the new data
     from .C08 import _fitted_state
 
